@@ -189,6 +189,11 @@ def gen_C03(r, tier):
         for preset in ("csv", "tsv", "spc", None):
             for c in (None, 1):
                 cases.append(cli_case("oligo", {"k": k, "H": 1, "p": preset, "c": c}, "fa", [b"ACGTNACGTTGCA"]))
+    # the header line does not depend on the records: no record at all, one record shorter than k
+    for k in (3, 5, 7):
+        for c in (None, 1):
+            for recs in ([], [b"AC"]):
+                cases.append(cli_case("oligo", {"k": k, "H": 1, "p": r.pick(["csv", "tsv", None]), "c": c}, "fa", recs))
     return cases
 
 
@@ -1155,7 +1160,7 @@ PROPS = {
                 rule="rev_comp and numeric_to_kmer on every code x < 4^k for k <= 7 (quick) / 9 (thorough), random codes for k up to 31 including 0, 4^k-1 and palindromes code(h ++ rc h); the k-mer iterator on seeded sequences and on their reverse complements; non-trivial = non-empty result; relations checked on the implementation's outputs: involution, stream reversal with swapped strands, equal canonical multisets",
                 assumptions=["codes >= 4^k are never generated (unspecified)", "bytes 0x00-0x03 are never generated"]),
     "C03": dict(gen=gen_C03, needs=["harness", "cli"], sample_filter=lambda c: (c.startswith("cli") and "k=3" in c) or (not c.startswith("cli") and int(c.split(" ")[1]) <= 5),
-                rule="kmer_pos_maps(k) and the header for every k in 1..=7 (quick) / 1..=8 (thorough), all 4^k entries enumerated (entries of non-canonical codes are not compared: unspecified); one case per (op, k), each non-trivial; plus the first line written by `kmertools comp oligo -H` for k in 3..=7 x {csv,tsv,spc,default} x {mapped, batch writer}",
+                rule="kmer_pos_maps(k) and the header for every k in 1..=7 (quick) / 1..=8 (thorough), all 4^k entries enumerated (entries of non-canonical codes are not compared: unspecified); one case per (op, k), each non-trivial; plus the first line written by `kmertools comp oligo -H` for k in 3..=7 x {csv,tsv,spc,default} x {mapped, batch writer}, also for an input without records and one whose only record is shorter than k",
                 assumptions=[], exhaustive=True),
     "C04": dict(gen=gen_C04, needs=["harness"], extra=extra_C04, sample_filter=lambda c: int(c.split(" ")[1]) <= 6 and len(c) < 900,
                 rule="seeded records (homopolymers, low-complexity repeats, palindromic h++rc(h), all-ambiguous, mixed with planted ambiguous bytes; boundary lengths 0,1,k-1,k,k+1,2k) for k in 1..=8, raw and normalised, each also as its reverse complement, lower case, U for T and both; vector entries compared as binary64 bit patterns with the Flocq model; non-trivial = some entry non-zero; relations on the implementation: the four respellings give the identical row",
